@@ -338,6 +338,11 @@ def document_single_file(file, root, settings: Settings):
     documenter, aggregator, and RST writer.
     """
 
+    if os.path.isdir(root) and os.path.basename(file).lower() == ".cmake":
+        # A directory entry whose whole name is the extension has no base name: the index
+        # cannot list it and its page would be '.rst'
+        return
+
     output_path: str = settings.output.directory
     prefix = settings.rst.prefix
     module_path_separator = settings.rst.module_path_separator
